@@ -26,6 +26,7 @@ class Builder:
         self.seg = None
         self.nmodels = 0
         self.npaths = 0
+        self.oldpaths = {}
 
     def segment(self, env=None, disk_cfg=None, cwd=None):
         self.seg = {"env": env or {}, "disk_cfg": disk_cfg or {}, "cwd": cwd or "d0", "ops": []}
@@ -42,10 +43,17 @@ class Builder:
         self.nmodels += 1
         return "m%d" % self.nmodels
 
-    def path(self, fmt, directory=None):
+    def path(self, fmt, directory=None, reuse=0.0):
+        """A new path, or (with probability `reuse`) one handed out before for this format: a
+        later document then replaces an earlier one at the same place."""
+        old = self.oldpaths.setdefault(fmt, [])
+        if old and reuse and self.rng.random() < reuse:
+            return self.rng.choice(old)
         self.npaths += 1
         d = directory if directory is not None else self.rng.choice(DIRS)
-        return "%s/f%d.%s" % (d, self.npaths, EXT[fmt])
+        p = "%s/f%d.%s" % (d, self.npaths, EXT[fmt])
+        old.append(p)
+        return p
 
     def disk_cfg(self, buggify):
         rng = self.rng
@@ -55,7 +63,7 @@ class Builder:
         if buggify and rng.random() < 0.5:
             cfg["short_r"] = rng.choice([1, 2, 5, 64])
         if buggify:
-            cfg["mtime_mode"] = rng.choice(["real", "real", "frozen", "frozen", "backwards"])
+            cfg["mtime_mode"] = rng.choice(["mono", "mono", "frozen", "frozen", "backwards"])
         return cfg
 
     def write_fault(self):
@@ -95,6 +103,8 @@ def replica_envs(rng, n=3):
     for loc, enc in picks:
         out.append({"env": {"hashseed": rng.randint(1, 4294967295), "locale": loc},
                     "disk_cfg": {"default_encoding": enc}})
+    if rng.random() < 0.3:
+        out[-1]["env"]["optimize"] = True
     return out
 
 
@@ -109,9 +119,23 @@ def plan_serialise(seed, tier):
     formats = rng.sample(ALL_WRITERS, rng.randint(2, len(ALL_WRITERS)))
     nseg = rng.choice([1, 1, 2])
     nonascii_bias = rng.random() < 0.35
+    torn = []      # (path, fmt) left behind by a writer that was killed
     for s in range(nseg):
         b.segment(disk_cfg=b.disk_cfg(buggify), cwd=rng.choice(DIRS))
+        killed = False
+        for path, fmt in torn:
+            # recovery after the restart: another, small model goes to the same path; the file
+            # must be exactly what transform() returns, whatever the killed writer left
+            h = b.handle()
+            small = {"size": "s", "maxdepth": 1, "p_group": 0.0, "max_ctcs": 0, "p_attr": 0.0,
+                     "p_abstract": 0.0, "p_typed": 0.0, "p_fcard": 0.0}
+            b.op(op="NEW", m=h, ref=gen.gen_model(rng, "whole", ["Rr", "Aa", "Bb"], small),
+                 style="td", frag="whole")
+            b.op(op="WRITE", fmt=fmt, m=h, path=path, writer="fresh", pathstyle="abs")
+        torn = []
         for _sess in range(rng.randint(1, 2)):
+            if killed:
+                break
             classes = None
             if nonascii_bias:
                 classes = ["ident", "nonascii"]
@@ -129,6 +153,17 @@ def plan_serialise(seed, tier):
                 h_ref[1] = [o for o in b.seg["ops"] if o.get("m") == h_ref[0]][0]["ref"]
             for _step in range(rng.randint(6, 18 if tier == "quick" else 40)):
                 k = rng.random()
+                if faulty and s < nseg - 1 and rng.random() < 0.04:
+                    # the process is killed in the middle of a write; the segment ends here
+                    h, ref = rng.choice(live)
+                    fmt = rng.choice(formats)
+                    path = rng.choice(written)[0] if (written and rng.random() < 0.5) \
+                        else b.path(fmt)
+                    b.op(op="WRITE", fmt=fmt, m=h, path=path, writer="fresh", pathstyle="abs",
+                         fault=b.tear_fault())
+                    torn.append((path, fmt))
+                    killed = True
+                    break
                 if k < 0.62:
                     h, ref = rng.choice(live)
                     fmt = rng.choice(formats)
@@ -195,8 +230,11 @@ SCENARIOS = {"serialise": plan_serialise}
 # =========================================================================== round trips
 
 def _seg_env(rng):
-    return {"hashseed": rng.choice([0, rng.randint(1, 4294967295)]),
-            "locale": rng.choice(["utf8", "utf8", "ascii", "utf8mode"])}
+    env = {"hashseed": rng.choice([0, rng.randint(1, 4294967295)]),
+           "locale": rng.choice(["utf8", "utf8", "ascii", "utf8mode"])}
+    if rng.random() < 0.15:
+        env["optimize"] = True       # the interpreter runs with -O
+    return env
 
 
 def plan_roundtrip(fmts, seed, tier):
@@ -582,7 +620,7 @@ def plan_uvl_peer(seed, tier):
             cfg["agg1"] = True      # len / floor / ceil and one-argument sum / avg
             ref = gen.gen_model(rng, "uvl", pool, cfg)
             text, info = peers.emit_uvl(ref, rng)
-            path = b.path("uvl")
+            path = b.path("uvl", reuse=0.3)
             tags = ["peer.uvl"] + ["surface." + c for c in info["choices"]]
             k = rng.random()
             if k < 0.55:
@@ -715,7 +753,14 @@ def plan_third_party(seed, tier):
                     "glencoe": peers.emit_glencoe}[kind]
             odd = kind == "fama" and rng.random() < 0.08
             text, info = emit(ref, rng, True) if odd else emit(ref, rng)
-            path = b.path(fmt)
+            if kind == "fama" and not odd and rng.random() < 0.08:
+                # a relation element that lost its children (hand-edited or damaged file)
+                import re as _re
+                stripped = _re.sub(r"<(solitaryFeature|groupedFeature|solitaryfeature|"
+                                   r"groupedfeature)\b[^>]*/>", "", text, count=0)
+                if stripped != text:
+                    text, odd = stripped, True
+            path = b.path(fmt, reuse=0.3)
             tags = ["peer." + kind] + ["surface." + c for c in info["choices"]]
             k = rng.random()
             if odd:
@@ -809,6 +854,9 @@ def _fama_cards(ref, rng):
             if n > 1 and rng.random() < 0.25:
                 rel["min"] = rng.randint(0, n)
                 rel["max"] = rng.randint(max(rel["min"], 1), n + rng.choice([0, 0, 2]))
+                if rng.random() < 0.25:
+                    rel["min"], rel["max"] = rng.choice([(2, 10), (3, 12), (5, 15), (10, 12),
+                                                         (9, 11)])
             elif n == 1 and rng.random() < 0.12:
                 rel["min"], rel["max"] = rng.choice([(1, 3), (0, 2), (2, 2), (0, 0), (1, 2)])
 
